@@ -86,6 +86,77 @@ impl Vm {
     }
   }
 
+  /// Record the outcome of an inline cache probe: hit (from the cache) or the slow path result
+  pub(super) fn verif_probe(
+    &self,
+    kind: &str,
+    slot: usize,
+    class: laythe_core::ObjRef<laythe_core::object::Class>,
+    name: &str,
+    hit: bool,
+    index: i64,
+    value: Option<Value>,
+  ) {
+    if core_verif::wants(core_verif::CACHE) {
+      let vid = match value {
+        Some(v) if v.is_obj() => core_verif::id(core_verif::K_OBJ, v.to_obj().verif_addr()) as i64,
+        _ => -1,
+      };
+      core_verif::emit(
+        core_verif::CACHE,
+        format!(
+          "{{\"ev\":\"probe\",\"kind\":\"{}\",\"mod\":{},\"slot\":{},\"c\":{},\"cname\":{},\"name\":{},\"hit\":{},\"idx\":{},\"mid\":{}}}",
+          kind,
+          self.current_fun.module_id(),
+          slot,
+          core_verif::id(core_verif::K_CLASS, class.to_usize()),
+          core_verif::json_str(&class.name()),
+          core_verif::json_str(name),
+          hit,
+          index,
+          vid
+        ),
+      );
+    }
+  }
+
+  /// Record a class table event
+  pub(super) fn verif_class_event(
+    &self,
+    ev: &str,
+    class: laythe_core::ObjRef<laythe_core::object::Class>,
+    other: Option<laythe_core::ObjRef<laythe_core::object::Class>>,
+    name: &str,
+    index: i64,
+    value: Option<Value>,
+  ) {
+    if core_verif::wants(core_verif::CACHE) {
+      let cid = if ev == "class" {
+        core_verif::fresh(core_verif::K_CLASS, class.to_usize())
+      } else {
+        core_verif::id(core_verif::K_CLASS, class.to_usize())
+      };
+      let vid = match value {
+        Some(v) if v.is_obj() => core_verif::id(core_verif::K_OBJ, v.to_obj().verif_addr()) as i64,
+        _ => -1,
+      };
+      core_verif::emit(
+        core_verif::CACHE,
+        format!(
+          "{{\"ev\":\"{}\",\"c\":{},\"s\":{},\"name\":{},\"idx\":{},\"mid\":{}}}",
+          ev,
+          cid,
+          other
+            .map(|o| core_verif::id(core_verif::K_CLASS, o.to_usize()) as i64)
+            .unwrap_or(-1),
+          core_verif::json_str(name),
+          index,
+          vid
+        ),
+      );
+    }
+  }
+
   /// Record a scheduler event without arguments
   pub(super) fn verif_sched_event(&self, ev: &str, code: i64) {
     if core_verif::wants(core_verif::SCHED) {
